@@ -38,8 +38,17 @@ func (k Keeper) GetModuleAccountAndPermissions(ctx sdk.Ctx, moduleName string) (
 	if acc != nil {
 		macc, ok := acc.(exported.ModuleAccountI)
 		if !ok {
-			fmt.Println("account that is retrieved is not a module account")
-			return types.ModuleAccount{}, []string{}
+			// coins were sent to the module's address before the module first used its account, so a plain
+			// account was created for them: it becomes the module account, keeping its coins and number
+			base, isBase := acc.(*types.BaseAccount)
+			if !isBase {
+				fmt.Println("account that is retrieved is not a module account")
+				return types.ModuleAccount{}, []string{}
+			}
+			upgraded := types.NewEmptyModuleAccount(moduleName, perms...)
+			upgraded.BaseAccount = base
+			k.SetModuleAccount(ctx, upgraded)
+			return upgraded, perms
 		}
 		return macc, perms
 	}
